@@ -29,6 +29,15 @@ func genCoalPlan(r *rand.Rand, faults bool) *ProxyPlan {
 			res.Chunk = res.Size / 8
 		}
 	}
+	if r.IntN(3) == 0 {
+		// an origin behind a chain of intermediaries: fields the proxy itself adds to, already
+		// carrying several lines (a stored value list with spare capacity is shared by every hit)
+		for _, k := range []string{"Via", "X-Cache", "Cache-Status"} {
+			for _, v := range []string{"1.1 edge-a", "1.1 edge-b", "1.0 edge-c"} {
+				res.Extra = append(res.Extra, [2]string{k, v})
+			}
+		}
+	}
 	n := 2 + r.IntN(7)
 	state := r.IntN(3) // 0 cold, 1 fresh, 2 stale
 	at := int64(0)
